@@ -56,6 +56,10 @@ CHECKS = {
     'C10': ('model_checking', 'module sections built with the real Mod/Param DSL, processed by the real Server._processCfg; configured value and '
             'min/max overrides are symbolic, the kinds of configuration error present in each of two sections are enumerated; oracle: start value, '
             'described limits, later range checks (symbolic probe), write-once-before-first-poll, rejection with all failing modules reported', '5/C10'),
+    'C09': ('other', 'a fixed catalogue of class hierarchies built twice from one factory (alone = reference, and together with overriding subclasses, '
+            'configured instances and run-time mutations of one instance); override values, configured overrides and mutations are symbolic; the '
+            'description and validation behaviour of every other class/instance must equal the reference. The property quantifies over programs; '
+            'only values inside the catalogue programs are solver-quantified', '5/C09'),
 }
 NOT_YET = 'check not built yet in this round (planned per DESIGN.md section 5); not claimed until its harness runs clean'
 NOT_APPLICABLE = {}
